@@ -46,7 +46,7 @@ struct Handles : Profile {
     {
         return {"stale-rejected", "wrongkind-rejected", "never-rejected", "double-release-rejected", "close-refused-with-aids", "nested-open",
                 "upgrade-open", "foreign-rejected", "teardown", "identity-checked", "shadow-run-compared", "wrongkind-hlevel",
-                "stale-extra-call", "wrongkind-extra-call", "never-extra-call", "aid-on-special-element", "badopen-refused", "more-than-256-sd-files"};
+                "stale-extra-call", "wrongkind-extra-call", "never-extra-call", "aid-on-special-element", "badopen-refused", "more-than-256-sd-files", "ids-sharing-a-chain", "failed-call-releases"};
     }
 
     Plan generate(Rng &rng, bool thorough, uint64_t) override
@@ -56,8 +56,8 @@ struct Handles : Profile {
         Rng r  = rng.sub(2);
         int nops = (int)r.range(30, thorough ? 160 : 120);
         static const std::vector<int> w     = {/*hopen*/ 8, /*acquire*/ 30, /*release*/ 22, /*check*/ 8, /*stale*/ 14, /*wrongkind*/ 8, /*never*/ 4,
-                                               /*closebusy*/ 4, /*foreign*/ 3, /*teardown*/ 2, /*use*/ 10, /*badopen*/ 3, /*manyfiles*/ 0};
-        static const char            *names[] = {"hopen", "acquire", "release", "check", "stale", "wrongkind", "never", "closebusy", "foreign", "teardown", "use", "badopen", "manyfiles"};
+                                               /*closebusy*/ 4, /*foreign*/ 3, /*teardown*/ 2, /*use*/ 10, /*badopen*/ 3, /*manyfiles*/ 0, /*hashchain*/ 2};
+        static const char            *names[] = {"hopen", "acquire", "release", "check", "stale", "wrongkind", "never", "closebusy", "foreign", "teardown", "use", "badopen", "manyfiles", "hashchain"};
         p.ops.push_back(mkop(0, "hopen", {0, 0}));
         if (r.chance(0.03)) // rarely, and first: several hundred SD files open at once (ids carry the number of the file's slot)
             p.ops.push_back(mkop(0, "manyfiles", {257 + (int64_t)r.below(8)}));
@@ -85,6 +85,9 @@ struct Handles : Profile {
                     break;
                 case 11:
                     p.ops.push_back(mkop(0, names[k], {(int64_t)r.below(6), (int64_t)r.below(2)}));
+                    break;
+                case 13: // kind of id (file / access), file, order in which the three are released
+                    p.ops.push_back(mkop(0, names[k], {(int64_t)r.below(2), (int64_t)r.below(2), (int64_t)r.below(6)}));
                     break;
                 default:
                     p.ops.push_back(mkop(0, names[k], {(int64_t)r.below(100)}));
@@ -391,6 +394,12 @@ struct Handles : Profile {
         }
         d[0] = 1;
         {
+            // a descriptor without data (a writer started the element and never wrote): reading it fails
+            int32 eaid = Hstartaccess(fid, 8803, 1, DFACC_WRITE);
+            if (eaid == FAIL || Hendaccess(eaid) == FAIL)
+                s.ctx.fail("setup-failed", "setup-failed:nodata", "populating a file failed");
+        }
+        {
             // a linked-block element of the same name in every file, with its own length and bytes: access ids on special
             // elements share bookkeeping per element, which must never be taken from the other file
             std::vector<uint8> lb((size_t)elem_len(f, 4), elem_byte(f, 4));
@@ -443,6 +452,20 @@ struct Handles : Profile {
                 if (!query(s, x.kind, x.id, &x))
                     s.ctx.fail("live-rejected", strf("live-rejected:%d", x.kind), strf("a live %s (0x%x) is rejected by its own interface", KNAME[x.kind], (unsigned)x.id));
                 s.ctx.probe("identity-checked");
+                if (x.kind == H_FID && s.populated[x.file]) {
+                    // a call that fails half way (the element is found, reading it fails) lets go of what it had attached
+                    char *fn = NULL;
+                    intn  acc = 0, att0 = -1, att1 = -2;
+                    uint8 b[16];
+                    Hfidinquire(x.id, &fn, &acc, &att0);
+                    if (Hgetelement(x.id, 8803, 1, b) != FAIL)
+                        s.ctx.fail("failed-call-accepted", "failed-call-accepted:Hgetelement", "Hgetelement of a descriptor without data returns bytes");
+                    Hfidinquire(x.id, &fn, &acc, &att1);
+                    if (att0 != att1)
+                        s.ctx.fail("retained-state", "retained-state:attach-after-failed-call",
+                                   strf("a failed Hgetelement leaves %d access elements attached to the file where %d were before", (int)att1, (int)att0));
+                    s.ctx.probe("failed-call-releases");
+                }
             }
     }
     bool is_live_value(S &s, int kind, int32 id)
@@ -869,6 +892,53 @@ struct Handles : Profile {
                         Vdetach(vg);
                         ctx.probe("foreign-rejected");
                     }
+                }
+            }
+            else if (k == "hashchain") {
+                // Three ids of one kind that are valid at the same time and lie a multiple of the id table's size apart (64
+                // for file ids, 256 for access ids: they share a chain of the table), released in a given order: releasing one
+                // must not disturb the two others.
+                int f = modn(o.arg(1), 2), kind = modn(o.arg(0), 2);
+                if (!s.on_disk[f] || !s.populated[f])
+                    done = false;
+                else {
+                    int32 base = Hopen(path(f).c_str(), DFACC_READ, 0);
+                    if (base == FAIL)
+                        ctx.fail("open-failed", "open-failed:hashchain", "Hopen(READ) failed");
+                    int   gap = kind == 0 ? 64 : 256;
+                    int32 id[3];
+                    auto  get = [&]() { return kind == 0 ? Hopen(path(f).c_str(), DFACC_READ, 0) : Hstartread(base, 8800, 1); };
+                    auto  put = [&](int32 x) { return kind == 0 ? Hclose(x) : Hendaccess(x); };
+                    auto  ok  = [&](int32 x) {
+                        char *fn = NULL;
+                        intn  a = 0, b = 0;
+                        return kind == 0 ? Hfidinquire(x, &fn, &a, &b) != FAIL : Htell(x) != FAIL;
+                    };
+                    for (int q = 0; q < 3; q++) {
+                        id[q] = get();
+                        if (id[q] == FAIL)
+                            ctx.fail("acquire-failed", "acquire-failed:hashchain", "an id could not be issued");
+                        for (int c2 = 0; q < 2 && c2 < gap - 1; c2++) { // ids in between are issued and released
+                            int32 t = get();
+                            if (t == FAIL || put(t) == FAIL)
+                                ctx.fail("acquire-failed", "acquire-failed:hashchain-churn", "an id could not be issued and released");
+                        }
+                    }
+                    static const int order[6][3] = {{0, 1, 2}, {0, 2, 1}, {1, 0, 2}, {1, 2, 0}, {2, 0, 1}, {2, 1, 0}};
+                    const int       *od = order[modn(o.arg(2), 6)];
+                    bool             gone[3] = {false, false, false};
+                    for (int q = 0; q < 3; q++) {
+                        if (put(id[od[q]]) == FAIL)
+                            ctx.fail("release-failed", "release-failed:hashchain", strf("releasing id %d of three (%s ids %d apart) failed: %s", od[q], kind == 0 ? "file" : "access", gap, herr().c_str()));
+                        gone[od[q]] = true;
+                        for (int w = 0; w < 3; w++)
+                            if (!gone[w] && !ok(id[w]))
+                                ctx.fail("live-rejected", strf("live-rejected:hashchain:%d", kind),
+                                         strf("after id %d of three %s ids (%d apart) was released, id %d, which was not, is rejected", od[q], kind == 0 ? "file" : "access", gap, w));
+                    }
+                    if (Hclose(base) == FAIL)
+                        ctx.fail("release-failed", "release-failed:hashchain-base", strf("Hclose failed: %s", herr().c_str()));
+                    ctx.probe("ids-sharing-a-chain");
                 }
             }
             else if (k == "manyfiles") {
